@@ -3,8 +3,9 @@
    logic of neighbors.cpp and neighborlist.cpp; float32 rounding inside the kernels is not modelled). *)
 From Coq Require Import ZArith List Bool.
 Import ListNotations.
+From Coq Require Import Sorted Permutation.
 Require Import MD.Neigh.Model MD.Neigh.Arith MD.Neigh.NeighborsProofs MD.Neigh.NlistProofs MD.Neigh.Complete
-  MD.Neigh.Complete2 MD.Neigh.CompleteOpen.
+  MD.Neigh.Complete2 MD.Neigh.CompleteOpen MD.Neigh.Bins MD.Neigh.BinsProofs MD.Neigh.BinsRefine MD.Neigh.Api MD.Neigh.ApiProofs.
 Open Scope Z_scope.
 
 (* compute_neighbors (one frame) = the haystack, in its order, filtered by "some query atom j <> i has
@@ -204,3 +205,196 @@ Example triclinic_half_width_hypotheses_satisfiable :
   In 1%nat (neighbors_frame (Some example_tric) 1900 1 [(100, 2200, 100); (600 + 1700, 2500 + 1200, 300 + 4500)] [0%nat] [1%nat]).
 Proof. exact example_tric_hyps. Qed.
 Print Assumptions triclinic_half_width_hypotheses_satisfiable.
+
+(* ===================================================================================================================
+   REFINEMENT of the loops and buffers of neighborlist.cpp (MD.Neigh.Bins: bins sorted by std::sort on (x, index),
+   findLowerBound / findUpperBound as the binary searches they are, rangeStart/rangeEnd/numRanges with their min/max
+   clamps, the item loop, the nested push_back completion) to the abstract voxel list used above. *)
+
+(* std::sort: a sorted permutation of the bin *)
+Theorem sorted_bin_is_sorted_permutation : forall l,
+  Permutation l (sort_bin l) /\ StronglySorted (fun a b => ent_x a <= ent_x b) (sort_bin l).
+Proof. exact (fun l => conj (sort_bin_perm l) (sort_bin_sorted l)). Qed.
+Print Assumptions sorted_bin_is_sorted_permutation.
+
+(* findLowerBound on a bin whose first k items (and only they) lie below the bound returns k, clamped to [lower, upper] *)
+Theorem find_lower_bound_correct : forall below bin k,
+  (forall i, (i < length bin)%nat -> below (ent_x (nth i bin ent0)) = (i <? k)%nat) ->
+  forall fuel lo hi, (lo <= hi <= length bin)%nat -> (hi - lo <= fuel)%nat ->
+    find_lower fuel below bin lo hi = Nat.max lo (Nat.min hi k).
+Proof. exact find_lower_spec. Qed.
+Print Assumptions find_lower_bound_correct.
+
+Theorem find_upper_bound_correct : forall above bin k,
+  (forall i, (i < length bin)%nat -> above (ent_x (nth i bin ent0)) = (k <=? i)%nat) ->
+  forall fuel lo hi, (lo <= hi <= length bin)%nat -> (hi - lo <= fuel)%nat ->
+    find_upper fuel above bin lo hi = Nat.max lo (Nat.min hi k).
+Proof. exact find_upper_spec. Qed.
+Print Assumptions find_upper_bound_correct.
+
+(* item idx of a sorted bin lies in one of the one-or-two index ranges exactly when its x satisfies the range predicate
+   of the abstract model (two x-ranges under periodic wrap included) *)
+Theorem voxel_index_ranges_are_the_x_ranges : forall g px r bin idx,
+  StronglySorted (fun a b => ent_x a <= ent_x b) bin -> (idx < length bin)%nat ->
+  ((exists se, In se (ranges_ll g px r bin) /\ (fst se <= idx < snd se)%nat) <->
+   in_ranges g px r (has_below g px r bin) (has_above g px r bin) (ent_x (nth idx bin ent0)) = true).
+Proof. exact ranges_cover. Qed.
+Print Assumptions voxel_index_ranges_are_the_x_ranges.
+
+(* and the ranges never overlap (the min(.., rangeStart[0]) / max(.., rangeEnd[0]) clamps): no item is visited twice *)
+Theorem voxel_index_ranges_never_overlap : forall g px r bin,
+  StronglySorted (fun a b => ent_x a <= ent_x b) bin ->
+  (exists a, ranges_ll g px r bin = [a]) \/
+  (exists a b, ranges_ll g px r bin = [a; b] /\ ((snd b <= fst a)%nat \/ (snd a <= fst b)%nat)).
+Proof. exact ranges_disjoint. Qed.
+Print Assumptions voxel_index_ranges_never_overlap.
+
+(* "Add in the symmetric entries": the nested push_back loop computes the closed form of the model, row by row and in
+   the same order, whenever every row holds smaller indices only and no duplicates (which getNeighbors guarantees) *)
+Theorem pushback_completion_is_closed_form : forall H,
+  (forall i j, In j (nth i H []) -> (j < i)%nat) /\ (forall i, NoDup (nth i H [])) -> complete_ll H = complete H.
+Proof. exact complete_ll_eq. Qed.
+Print Assumptions pushback_completion_is_closed_form.
+
+(* THE REFINEMENT, every input (any cell or none, any positions, any cutoff): the kernel with its loops and buffers
+   returns for every atom a permutation of the abstract model's row (fl = false: every-y-voxel repair off) *)
+Theorem nlist_lowlevel_refines : forall fl cell c xyz i,
+  Permutation (nth i (nlist_ll_gen fl cell c xyz) []) (nth i (complete (nlist_half_fix_gen fl cell c xyz)) []).
+Proof. exact nlist_ll_refines. Qed.
+Print Assumptions nlist_lowlevel_refines.
+
+(* hence, for the loops as written: symmetric, irreflexive, duplicate-free, existing atoms only ... *)
+Theorem nlist_lowlevel_sym_irrefl_nodup : forall cell c xyz i j,
+  let N := nlist_ll cell c xyz in
+  (In j (nth i N []) -> In i (nth j N [])) /\ ~ In i (nth i N []) /\ NoDup (nth i N []) /\
+  (In j (nth i N []) -> (i < length xyz)%nat /\ (j < length xyz)%nat).
+Proof. exact nlist_ll_relation. Qed.
+Print Assumptions nlist_lowlevel_sym_irrefl_nodup.
+
+(* ... nothing beyond the cutoff ... *)
+Theorem nlist_lowlevel_sound : forall cell c xyz i j, In j (nth i (nlist_ll cell c xyz) []) ->
+  i <> j /\ (image_within cell c (pos xyz i) (pos xyz j) \/ image_within cell c (pos xyz j) (pos xyz i)).
+Proof. exact nlist_ll_sound. Qed.
+Print Assumptions nlist_lowlevel_sound.
+
+(* ... and everything within it (orthorhombic cell, cutoff <= half of each edge, atoms anywhere; no cell) *)
+Theorem nlist_lowlevel_complete_ortho : forall B c xyz i j k1 k2 k3,
+  box_ok B -> ortho B -> 0 < c ->
+  2 * c <= b_ax B /\ 2 * c <= b_by B /\ 2 * c <= b_cz B ->
+  (i < length xyz)%nat -> (j < length xyz)%nat -> i <> j ->
+  norm2 (vsub (vsub (pos xyz j) (pos xyz i)) (lat B k1 k2 k3)) < c * c ->
+  In j (nth i (nlist_ll (Some B) c xyz) []).
+Proof. exact nlist_ll_complete_ortho. Qed.
+Print Assumptions nlist_lowlevel_complete_ortho.
+
+Theorem nlist_lowlevel_complete_nopbc : forall c xyz i j,
+  0 < c -> (i < length xyz)%nat -> (j < length xyz)%nat -> i <> j ->
+  norm2 (vsub (pos xyz j) (pos xyz i)) < c * c ->
+  In j (nth i (nlist_ll None c xyz) []).
+Proof. exact nlist_ll_complete_nocell. Qed.
+Print Assumptions nlist_lowlevel_complete_nopbc.
+
+(* non-vacuity / the order inside a row: on this 5-atom frame md.compute_neighborlist returns exactly the first list *)
+Example nlist_lowlevel_row_order_example :
+  nlist_ll (Some (mkBox 4096 0 4096 0 0 4096)) 700 ll_example_xyz = [[1; 2; 3]; [0; 2; 3]; [0; 1; 3]; [0; 2; 1]; []]%nat /\
+  nlist_fix2 (Some (mkBox 4096 0 4096 0 0 4096)) 700 ll_example_xyz = [[1; 2; 3]; [0; 2; 3]; [0; 1; 3]; [0; 1; 2]; []]%nat.
+Proof. exact ll_example. Qed.
+Print Assumptions nlist_lowlevel_row_order_example.
+
+(* ===================================================================================================================
+   The Cython wrappers neighbors.pyx / neighborlist.pyx (MD.Neigh.Api) *)
+
+(* ValueError exactly when some index of the query or of the (explicit) haystack is negative or >= n_atoms *)
+Theorem neighbors_api_valueerror_iff : forall t cn cd query hay periodic,
+  compute_neighbors_api t cn cd query hay periodic = NbValueError <->
+  exists i, In i (query ++ default_hay t hay) /\ (i < 0 \/ Z.of_nat (nt_natoms t) <= i).
+Proof. exact nb_api_valueerror_iff. Qed.
+Print Assumptions neighbors_api_valueerror_iff.
+
+(* otherwise one answer per frame; the answer of frame k is the haystack, in its order, filtered by "some query atom
+   j <> i is closer than the cutoff" on the coordinates and the cell of frame k alone *)
+Theorem neighbors_api_frames_independent : forall t cn cd query hay periodic,
+  (forall i, In i (query ++ default_hay t hay) -> 0 <= i < Z.of_nat (nt_natoms t)) ->
+  exists R, compute_neighbors_api t cn cd query hay periodic = NbFrames R /\
+    length R = length (nt_xyz t) /\
+    forall k, (k < length (nt_xyz t))%nat ->
+      nth k R [] =
+      filter (fun i => existsb (fun j => negb (Nat.eqb i j) && within (cell_used t periodic k) cn cd (nth k (nt_xyz t) []) i j)
+                               (map Z.to_nat query))
+             (map Z.to_nat (default_hay t hay)).
+Proof. exact nb_api_frames. Qed.
+Print Assumptions neighbors_api_frames_independent.
+
+Theorem neighbors_api_default_haystack : forall t cn cd query periodic,
+  compute_neighbors_api t cn cd query None periodic =
+  compute_neighbors_api t cn cd query (Some (map Z.of_nat (seq 0 (nt_natoms t)))) periodic.
+Proof. exact nb_api_default_haystack. Qed.
+Print Assumptions neighbors_api_default_haystack.
+
+(* periodic=False = the same call on the trajectory stripped of its unit cells (whatever the flag is then) *)
+Theorem neighbors_api_periodic_flag : forall t cn cd query hay p,
+  compute_neighbors_api t cn cd query hay false =
+  compute_neighbors_api (mkNT (nt_natoms t) (nt_xyz t) None) cn cd query hay p.
+Proof. exact nb_api_not_periodic. Qed.
+Print Assumptions neighbors_api_periodic_flag.
+
+(* order and repetitions in query_indices are immaterial *)
+Theorem neighbors_query_is_a_set : forall cell cn cd xyz q1 q2 hay,
+  (forall j, In j q1 <-> In j q2) ->
+  neighbors_frame cell cn cd xyz q1 hay = neighbors_frame cell cn cd xyz q2 hay.
+Proof. exact nb_query_as_set. Qed.
+Print Assumptions neighbors_query_is_a_set.
+
+(* a haystack atom is reported as often as it occurs in the haystack (when it has a close query atom) *)
+Theorem neighbors_multiplicity : forall cell cn cd xyz query hay i,
+  count_occ Nat.eq_dec (neighbors_frame cell cn cd xyz query hay) i =
+  if existsb (fun j => negb (Nat.eqb i j) && within cell cn cd xyz i j) query
+  then count_occ Nat.eq_dec hay i else 0%nat.
+Proof. exact nb_multiplicity. Qed.
+Print Assumptions neighbors_multiplicity.
+
+(* a pair at EXACTLY the cutoff: not reported by compute_neighbors (strict <), reported by compute_neighborlist
+   (not >): the two searches differ there -- inside the property's 1e-5 exclusion band *)
+Example boundary_pair_strictness_of_the_two_searches :
+  neighbors_frame None 500 1 [(0, 0, 0); (300, 400, 0)] [0%nat] [1%nat] = [] /\
+  neighbors_frame None 501 1 [(0, 0, 0); (300, 400, 0)] [0%nat] [1%nat] = [1%nat] /\
+  nlist_fix2 None 500 [(0, 0, 0); (300, 400, 0)] = [[1%nat]; [0%nat]] /\
+  nlist_fix2 None 499 [(0, 0, 0); (300, 400, 0)] = [[]; []].
+Proof. exact boundary_pair_strictness. Qed.
+Print Assumptions boundary_pair_strictness_of_the_two_searches.
+
+(* compute_neighborlist(frame=...): numpy indexing -- negative frames count from the end, outside: IndexError *)
+Theorem neighborlist_api_frame_selection : forall t c frame periodic,
+  let nf := Z.of_nat (length (nt_xyz t)) in
+  (- nf <= frame < 0 -> compute_neighborlist_api t c frame periodic = compute_neighborlist_api t c (frame + nf) periodic) /\
+  ((frame < - nf \/ nf <= frame) <-> compute_neighborlist_api t c frame periodic = NlIndexError).
+Proof. exact nl_api_frame_selection. Qed.
+Print Assumptions neighborlist_api_frame_selection.
+
+Theorem neighborlist_api_frame_local : forall t c frame periodic f,
+  frame_index (length (nt_xyz t)) frame = Some f ->
+  compute_neighborlist_api t c frame periodic = NlRows (nlist_fix2 (cell_used t periodic f) c (nth f (nt_xyz t) [])).
+Proof. exact nl_api_frame. Qed.
+Print Assumptions neighborlist_api_frame_local.
+
+Theorem neighborlist_api_periodic_flag : forall t c frame p,
+  compute_neighborlist_api t c frame false = compute_neighborlist_api (mkNT (nt_natoms t) (nt_xyz t) None) c frame p.
+Proof. exact nl_api_not_periodic. Qed.
+Print Assumptions neighborlist_api_periodic_flag.
+
+Theorem neighborlist_api_relation : forall t c frame periodic N i j,
+  compute_neighborlist_api t c frame periodic = NlRows N ->
+  (In j (nth i N []) -> In i (nth j N [])) /\ ~ In i (nth i N []) /\ NoDup (nth i N []).
+Proof. exact nl_api_relation. Qed.
+Print Assumptions neighborlist_api_relation.
+
+Example wrapper_model_runs :
+  compute_neighbors_api api_example 700 1 [0] None true = NbFrames [[1%nat]; []] /\
+  compute_neighbors_api api_example 700 1 [0] None false = NbFrames [[]; []] /\
+  compute_neighbors_api api_example 700 1 [0; -1] None true = NbValueError /\
+  compute_neighbors_api api_example 700 1 [0] (Some [3]) true = NbValueError /\
+  compute_neighborlist_api api_example 700 (-2) true = NlRows [[1%nat]; [0%nat]; []] /\
+  compute_neighborlist_api api_example 700 (-1) true = NlRows [[]; []; []] /\
+  compute_neighborlist_api api_example 700 2 true = NlIndexError.
+Proof. exact api_example_runs. Qed.
+Print Assumptions wrapper_model_runs.
